@@ -99,6 +99,8 @@ type query struct {
 	ep optProfile
 	// sz is the size class of the answer f(question) makes
 	sz string
+	// exact > 0: the reply body is meant to be exactly this long (edge scripts)
+	exact int
 }
 
 // optProfile is the EDNS a query carries.
@@ -650,6 +652,13 @@ func scriptQueries(rng *rand.Rand, frames []scriptFrame, client, connNo int, idA
 			break
 		}
 		kind := "hit"
+		if strings.HasPrefix(f.Sz, "e") {
+			// an exact-size answer, primed, asked without OPT
+			q := exactQuery(f.Sz, id)
+			qs = append(qs, q)
+			brk = append(brk, f.Brk && i > 0)
+			continue
+		}
 		switch {
 		case f.Kind == "miss":
 			kind = "miss"
@@ -667,6 +676,18 @@ func scriptQueries(rng *rand.Rand, frames []scriptFrame, client, connNo int, idA
 		brk = append(brk, f.Brk && i > 0)
 	}
 	return qs, brk
+}
+
+func exactQuery(sz string, id uint16) *query {
+	q := &query{id: id, kind: "exact", qtype: dns.TypeTXT, expect: expAnswer}
+	q.name = fmt.Sprintf("%s-k0.%s", sz, zone)
+	q.exact = exactBody(q.name)
+	q.sz = sizeClassOfAnswer(q.name, q.qtype)
+	m := new(dns.Msg)
+	m.SetQuestion(q.name, q.qtype)
+	m.Id = id
+	q.wire, _ = m.Pack()
+	return q
 }
 
 func rebuildWithoutDO(rng *rand.Rand, q *query, client int) *query {
@@ -902,6 +923,13 @@ func playStream(in *engInput, res *vh.Result, rng *rand.Rand, proto string, dial
 		if q.sz != "small" {
 			counters.bigOK.Add(1)
 		}
+		if q.exact > 0 {
+			if l == q.exact {
+				counters.exactOK.Add(1)
+			} else {
+				counters.exactOff.Add(1)
+			}
+		}
 	}
 	g := int(got.Load())
 	counters.answered.Add(int64(g))
@@ -935,7 +963,7 @@ func scriptKey(sc *tcpScript) string {
 }
 
 type tcpCounters struct {
-	conns, dialFail, frames, answered, expected, complete, cut, stalled, rcFails, bigOK atomic.Int64
+	conns, dialFail, frames, answered, expected, complete, cut, stalled, rcFails, bigOK, exactOK, exactOff atomic.Int64
 	mu                                                                                  sync.Mutex
 	obs                                                                                 []tcpObs
 }
@@ -1002,9 +1030,26 @@ func primeBig(in *engInput, res *vh.Result, rng *rand.Rand, proto string, dial f
 				sc.breaks = append(sc.breaks, true)
 			}
 		}
+		seenExact := map[string]bool{}
+		nExact := 0
+		for _, si := range in.Scripts {
+			for _, f := range si.Frames {
+				if strings.HasPrefix(f.Sz, "e") && !seenExact[f.Sz] {
+					seenExact[f.Sz] = true
+					id, _ := alloc()
+					q := exactQuery(f.Sz, id)
+					if q.sz == "small" {
+						nExact++
+					}
+					sc.queries = append(sc.queries, q)
+					sc.breaks = append(sc.breaks, true)
+				}
+			}
+		}
 		before := counters.bigOK.Load()
+		beforeX := counters.exactOK.Load()
 		playStream(in, res, rng, proto, dial, client, 9000+try, &sc, counters)
-		if counters.bigOK.Load()-before == int64(len(sc.queries)) {
+		if counters.bigOK.Load()-before == int64(len(sc.queries)-nExact) && counters.exactOK.Load()-beforeX == int64(len(seenExact)) {
 			return ""
 		}
 	}
@@ -1372,6 +1417,8 @@ func TestEngineLoad(t *testing.T) {
 	res.Count("tcp_cut", int(tc.cut.Load()))
 	res.Count("tcp_stalled", int(tc.stalled.Load()))
 	res.Count("tcp_big_replies_ok", int(tc.bigOK.Load()))
+	res.Count("tcp_exact_replies_ok", int(tc.exactOK.Load()))
+	res.Count("tcp_exact_replies_off", int(tc.exactOff.Load()))
 	if n := bareOPT.Load(); n > 0 {
 		res.Count("opt_in_reply_to_optless_query", int(n))
 		res.DriftNote("%d replies carry a bare OPT although the query had none, e.g. %v", n, bareOPTExample.Load())
